@@ -282,3 +282,112 @@ def linkage(tier, seed):
 UNITS.append(Bounded(PROP, 'linkage[numpy attributes used by the consensus code exist]', linkage,
                      'static scan of np.<attr> uses in sequtils.py and molecule.py against the installed numpy',
                      'ast scan + hasattr'))
+
+
+# ------------------------------------------------------------------------------ phredscores_to_base_call: the decision
+# "base at each position is the most likely call given the observed bases and their qualities (N when undecidable)":
+# the decision structure (arg-max of the likelihoods, N on a tie of the two best) over the reals for 1-2 observations of two
+# conflicting bases.  Floating-point rounding of np.prod / division is outside (A3: exact real arithmetic).
+REAL_T = 'real'
+
+
+def call_probs(shape):
+    def mk(eng, name):
+        from pyvc.engine import REAL
+        d = {}
+        for base, n in shape:
+            vals = []
+            for i in range(n):
+                p = named(REAL, 'p_%s%d' % (base, i))
+                eng.assume(z3.And(p.z > 0, p.z < 1))
+                vals.append(p)
+            d[base] = vals
+        eng.spec_env['P0'] = {b: list(v) for b, v in d.items()}
+        return d
+    return mk
+
+
+def _lik(base, shape):
+    n = dict(shape)[base]
+    return '(' + ' * '.join('P0["%s"][%d]' % (base, i) for i in range(n)) + ' * %d)' % (4 ** (n - 1))
+
+
+def _lik_n(shape):
+    terms = ['(1 - P0["%s"][%d])' % (b, i) for b, n in shape for i in range(n)]
+    return '(' + ' * '.join(terms) + ' * %d)' % (4 ** (len(terms) - 1))
+
+
+def base_call_unit(shape):
+    bases = [b for b, _ in shape]
+    L = {b: _lik(b, shape) for b in bases}
+    L['N'] = _lik_n(shape)
+    keys = bases + ['N']
+    ens = {}
+    for b in keys:
+        others = [c for c in keys if c != b]
+        ens['unique_most_likely_%s_is_called' % b] = 'implies(%s, result[0] == "%s")' % (
+            ' and '.join('%s > %s' % (L[b], L[c]) for c in others), b)
+    ens['tie_of_the_two_most_likely_gives_N'] = 'implies(%s, result[0] == "N")' % ' or '.join(
+        '(%s == %s and %s)' % (L[a], L[b], ' and '.join('%s >= %s' % (L[a], L[c]) for c in keys if c not in (a, b)) or 'True')
+        for a, b in itertools.combinations(keys, 2))
+    return Contract(
+        PROP, FS + '::phredscores_to_base_call', name='phredscores_to_base_call[%s]' % ', '.join('%s x%d' % s for s in shape),
+        params={'probs': call_probs(shape)},
+        ensures=ens, raises={},
+        bounded='observations: %s; probabilities symbolic reals in (0,1)' % ', '.join('%d of %s' % (n, b) for b, n in shape),
+        assumptions=['A3: np.prod, np.power, division and comparison over the reals (no floating-point rounding)',
+                     'collections.Counter.most_common: sorted by value, descending, stable (assumed contract)'],
+    )
+
+
+UNITS += [base_call_unit((('A', 1), ('T', 1))), base_call_unit((('G', 1),))]
+_deep = base_call_unit((('C', 2), ('T', 1)))      # degree-3 real arithmetic: about a minute
+_deep.tiers = ('thorough',)
+UNITS.append(_deep)
+
+
+# ------------------------------------------------------------------------------ write_tags_to_psuedoreads
+def pseudo_setup(eng):
+    eng.ghost.clear()
+    site = named(INT, 'cut_site')
+    bc = named(STR, 'barcode')
+    eng.spec_env['SITE'], eng.spec_env['BARCODE'] = site, bc
+    eng.loader.call_hooks[Q + 'get_rt_reactions'] = lambda e, f, a, k, n: {}
+    eng.loader.call_hooks[Q + 'get_barcode_sequences'] = lambda e, f, a, k, n: [bc]
+    eng.loader.call_hooks[Q + 'get_cut_site'] = lambda e, f, a, k, n: ('chr1', site, False)
+
+
+def pseudo_self(with_umi):
+    def mk(eng, name):
+        frs = [Obj('FragStub', {}) for _ in range(2)]
+        ov = named(INT, 'overflow_fragments')
+        eng.assume(ov.z >= 0)
+        return Obj('NlaIIIMolecule', {'methylation_call_dict': None, 'sample': named(STR, 'sample'),
+                                      'umi': named(STR, 'umi') if with_umi else None, 'fragments': frs, 'overflow_fragments': ov,
+                                      'allele': None, 'allele_resolver': None},
+                   info=eng.loader.classref('singlecellmultiomics/molecule/nlaIII.py', 'NlaIIIMolecule'))
+    return mk
+
+
+def pseudo_reads(eng, name):
+    return [stubs.make_read(eng, 'pseudo%d' % i, tags={}, closed=True) for i in range(2)]
+
+
+pseudo_tags = Contract(
+    PROP, FM + '::Molecule.write_tags_to_psuedoreads', name='Molecule.write_tags_to_psuedoreads',
+    params={'self': pseudo_self(True), 'reads': pseudo_reads},
+    cases=[{}, {'self': pseudo_self(False)}],
+    setup=pseudo_setup,
+    ensures={
+        'sample_and_site': 'all(r.get_tag("SM") == self.sample and r.get_tag("DS") == SITE for r in reads)',
+        'umi_barcode_and_molecule_identifier':
+            'implies(self.umi is not None, all(r.get_tag("RX") == self.umi and r.get_tag("BC") == BARCODE and '
+            'r.get_tag("MI") == BARCODE + self.umi for r in reads))',
+        # the fragment count of the molecule, as Molecule.write_tags puts it on the source reads (C06): members + overflow
+        'fragment_count': 'all(r.get_tag("TF") == len(self.fragments) + self.overflow_fragments for r in reads)',
+    },
+    raises={},
+    assumptions=['get_cut_site / get_barcode_sequences / get_rt_reactions through stubs; no methylation calls, allele or '
+                 'allele resolver on the molecule; two pseudo-reads (the loop treats each record independently)'],
+)
+UNITS.append(pseudo_tags)
